@@ -119,13 +119,26 @@ def resolveSpec (p : Params) (env : Env) (rc : RouteConfig) (d : String) : Excep
     | .fail t => .error (.resolver t)
     | .errLookup => .error .noAvailableResolvers
 
-def PortItem.covers : PortItem → Nat → Bool
-  | .single p, q => p == q
+/-- what one comma-separated piece of a port-range string denotes -/
+def itemCovers : SSV.PortSet.Item → Nat → Bool
+  | .port p, q => p == q
   | .range a b, q => a ≤ q && q ≤ b
 
+/-- the ports a port-range string, as written, denotes: "a comma-separated list of ports and port ranges" (portset.Parse);
+the pieces and the piece syntax (decimal 1..65535, or lo-hi with 1 ≤ lo < hi ≤ 65535) are C10's `items` / `parseItem`,
+characterised there by `parse_uint16_spec` / `parse_sound`. A malformed piece denotes nothing (and `build` refuses the
+configuration: `malformed_port_ranges_rejected`). -/
+def pieceCovers (pc : List UInt8) (q : Nat) : Bool :=
+  match SSV.PortSet.parseItem pc with
+  | some it => itemCovers it q
+  | none => false
+
+def rangesDenote (str : List UInt8) (q : Nat) : Bool :=
+  (SSV.PortSet.items str).any (fun pc => pieceCovers pc q)
+
 /-- the ports a `ports` list together with a `portRanges` string denote -/
-def portsDenote (ports : List Nat) (items : List PortItem) (q : Nat) : Bool :=
-  ports.contains q || items.any (fun i => PortItem.covers i q)
+def portsDenote (ports : List Nat) (str : List UInt8) (q : Nat) : Bool :=
+  ports.contains q || rangesDenote str q
 
 /-- (R6) -/
 def inPrefixes (p : Params) (lits : List Prefix) (sets : List String) (a : IP) : Bool :=
@@ -248,5 +261,17 @@ def specRoutes (p : Params) (env : Env) (cfg : Config) (q : Req) : List RouteCon
     | .e x => .error x
 
 def specMatch (p : Params) (env : Env) (cfg : Config) (q : Req) : Res := specRoutes p env cfg q cfg.routes
+
+/-- the name of the route that decides the request: the first route in configuration order whose conditions all hold,
+"default" when none does; none at all when the request fails on an undecidable condition -/
+def specRouteNames (p : Params) (env : Env) (q : Req) : List RouteConfig → Option String
+  | [] => some "default"
+  | rc :: rest =>
+    match specRoute p env rc q with
+    | .t => some rc.name
+    | .f => specRouteNames p env q rest
+    | .e _ => none
+
+def specMatchedRoute (p : Params) (env : Env) (cfg : Config) (q : Req) : Option String := specRouteNames p env q cfg.routes
 
 end SSV.Router.Spec
